@@ -60,6 +60,8 @@ def sample_mol():
     bd = m.connect(1, 0, label="bl", btype=ml.BondType.Aromatic, stereo=ml.BondStereo.E, f_order=1.5)
     bd.attrib["w"] = 2.5
     m.attrib["nested"] = {"a": (1, 2)}
+    m.attrib[7] = "an integer key"                 # msgpack-able: packs without complaint, so it has to read back
+    m.atoms[0].attrib["shifts"] = {1: 0.5, 2: 1.5}
     return m
 
 
@@ -180,7 +182,7 @@ for i, o in enumerate(objs):
         else:
             ser = getattr(mio, f"_serialize_{kind}_v1")
             de = getattr(mio, f"_deserialize_{kind}_v1")
-            r = de(msgpack.loads(msgpack.dumps(ser(o), use_single_float=True), use_list=False))
+            r = de(msgpack.loads(msgpack.dumps(ser(o), use_single_float=True), use_list=False, strict_map_key=False))
         dd = diff(view(o), view(r), v1=(ver == 1))
         if dd:
             bad.append(f"object {i}: " + "; ".join(dd[:3]))
